@@ -344,6 +344,30 @@ def run(tier, seed):
     core.validate_and_report(chk, 'Framing', OBS_FD, ACTIONS, batch, binst.cfg([], spec=False), INVS, 'c20',
                              {'inst': 'burst'}, 'burst of %d descriptors ahead of the bytes' % binst.total_fds, nproc=len(batch),
                              extra={'FramingData.tla': binst.module('Framing', 1)})
+    # ---- a message of a type this version of the protocol does not define, carrying a descriptor, in front of an
+    # ordinary one.  Outside Framing.tla's alphabet (the implementation gives the connection up there, which ends the
+    # history); whatever it does, Attribution still binds what it delivers: the second message resolves to its OWN
+    # descriptor or is not delivered at all
+    unknown = bytearray(mk_msg('call', 1, fds=1)[0])
+    unknown[1] = 7
+    second = mk_msg('call', 2, fds=1)[0]
+    for cut in (None, 20, len(unknown), len(unknown) + 30):
+        d = FdDriver(Instance('none', [], [(bytes(unknown), 1, [0]), (second, 1, [0])], 'unknown-type'), 'stub')
+        try:
+            d.apply('FdArrive', ())
+            d.apply('FdArrive', ())
+            stream = bytes(unknown) + second
+            for part in ([stream] if cut is None else [stream[:cut], stream[cut:]]):
+                d.p.dataReceived(part)
+        except Exception:
+            pass                  # Twisted drops the connection: nothing more is delivered
+        ser2 = struct.unpack_from('<I', second, 8)[0]
+        res = [(m.body[0] - framing.FD0 if isinstance(m.body[0], int) else m.body[0],) for m in d.p.parsed
+               if m.serial == ser2 and m.body]
+        chk.traces += 1
+        if res and tuple(res[0]) != (2,):
+            chk.violation('a message of an undefined type carrying a descriptor, then a call: the call resolved its descriptor argument to %r '
+                          '(its own is number 2)' % (res[0],), dict(kind='case', module='c20', cut=cut, resolved=repr(res)))
     # ---- canary
     inst = fd_instance()
     acts = list(placements(inst, [inst.n]))[0]
